@@ -167,7 +167,13 @@ def stream_b(ctx, res, n):
         bad = ["missing." + fmt, "adir", "", 7, "~/h%d.%s" % (i, fmt)]
         fnames = list(names) * 2 + bad
         trees = {}
-        formatter = ConfigFormat.get(fmt)
+        # format options apply to the included files as to the including document
+        opts = {}
+        if fmt == "yaml" and rng.random() < 0.6:
+            opts = {"root_key": rng.choice(["CONFIG", "app"])}
+        elif fmt == "xml" and rng.random() < 0.6:
+            opts = {"root_tag": rng.choice(["settings", "cfgroot"])}
+        formatter = ConfigFormat.get(fmt, **opts)
         for nm, path in names.items():
             t = gen_doc(rng, rng.choice([sk] + list(sk["subs"].values()) + [{"includes": [], "subs": {}}]), fnames)
             trees[nm] = t
@@ -192,7 +198,7 @@ def stream_b(ctx, res, n):
         # (1) correspondence on the processed tree
         cfg = schema()
         try:
-            got = ("ok", cfg._process_includes(schema, copy.deepcopy(doc), partial(ConfigFormat.get, fmt)))
+            got = ("ok", cfg._process_includes(schema, copy.deepcopy(doc), partial(ConfigFormat.get, fmt, **opts)))
         except AttributeError:
             got = ("attribute-error", None)
         except (ValueError, OSError) as e:
@@ -210,14 +216,18 @@ def stream_b(ctx, res, n):
         cfg2 = schema()
         before = asdict(cfg2)
         try:
-            cfg2.load(main, fmt)
+            if opts:
+                with open(main, "rb") as fh:
+                    cfg2.loads(fh.read(), fmt, **opts)       # Config.load takes no format options
+            else:
+                cfg2.load(main, fmt)
             loaded = ("ok", asdict(cfg2))
         except Exception as e:  # noqa
             loaded = ("fail", type(e).__name__)
             if exp[0] != "ok" and canon_sorted(asdict(cfg2)) != canon_sorted(before):
                 res.violate(None, "load with an unresolvable include changed the configuration",
                             {"schema": sk, "doc": doc, "fmt": fmt, "files": trees})
-        case = {"stream": "load-with-includes", "schema": sk, "doc": doc, "fmt": fmt, "files": trees}
+        case = {"stream": "load-with-includes", "schema": sk, "doc": doc, "fmt": fmt, "opts": opts, "files": trees}
         nested = any(inc in (doc.get(s) or {}) for s, sub in sk["subs"].items() if isinstance(doc.get(s), dict) for inc in sub["includes"])
         chained = sum(1 for inc in sk["includes"] if doc.get(inc) in trees) >= 2
         res.case(json.dumps(case, sort_keys=True, default=str) if (nested or chained) and exp[0] == "ok" else None,
